@@ -560,14 +560,14 @@ def emitFirst (s : St) (im : Impl) : Nat :=
 theorem emitImpl_acc_unfold (f : Nat) (P : Prog) (s : St) (fl : Flavour) (i arg : Nat) (strat : Strat) (im : Impl)
     (hacc : fl.isAcc = true) (hi : aget s.impls i = some im) :
     emitImpl (f+1) P s fl (some i) arg strat =
-      (match runStrat f P (emitPrologue s i im) i (emitFirst s im) s.next arg strat with
+      (match runStrat f P (emitPrologue s i im) i (emitFirst s im) s.next arg (strat.forFlavour fl) with
        | none => none
        | some (s2, o, v) => some (emitEpilogue s2 i s.next o v)) := by
   rw [emitImpl]
   simp only [hi, hacc, St.fresh]
   simp only [Bool.not_true, Bool.false_and, Bool.false_eq_true, ↓reduceIte]
   unfold emitPrologue emitFirst
-  cases hr : runStrat f P _ i _ s.next arg strat with
+  cases hr : runStrat f P _ i _ s.next arg (strat.forFlavour fl) with
   | none => rfl
   | some res =>
     obtain ⟨s2, o, v⟩ := res
